@@ -6,7 +6,7 @@ SPEC = {
     "group": G,
     "level": "proof",
     # each bridge harness is a 35-75 s / ~2 GB CBMC run; 2 at a time while the box is shared (quick ~4 min, thorough ~25 min); raise jobs to 8 on a free box (quick 100 s, thorough 8 min, measured)
-    "caps": {"jobs": 2, "mem_gb": 10},
+    "caps": {"jobs": 8, "mem_gb": 12},
     "harnesses": [
         # (a) level conversions
         H("c18::c18_conv_level", desc="AsTrace for log::Level / AsLog for Level: rank preserving, mutually inverse, injective, order preserving in both crates' orders",
